@@ -208,6 +208,8 @@ func c12SP(k c12Cfg) (*saml.ServiceProvider, *fx.KeyPair) {
 
 func c12Sequence(c *core.Ctx, k c12Cfg, length int) {
 	rnd := fx.NewRecReader(c.Rng.Int63())
+	rnd.MaxChunk = []int{0, 0, 0, 1, 7, 8, 16}[c.Rng.Intn(7)] // a random source that serves short reads is still a random source
+	c.Observe("random_source_read_sizes", fmt.Sprintf("max %d bytes per Read (0 = whole buffer)", rnd.MaxChunk))
 	saml.RandReader = rnd
 	sp, _ := c12SP(k)
 	// the library IdP, with the SP registered through its own published metadata
